@@ -21,4 +21,11 @@ def aggregate (rs : List CheckResult) : Agg :=
     reasons := bad.map (fun r => if r.reason = [] then unknownReason else r.reason)
     details := bad.map (·.detail) }
 
+/-- AggregateCheckResult.ForbiddenReason -/
+def Agg.reasonText (a : Agg) : Str := Str.join b!", " a.reasons
+
+/-- AggregateCheckResult.ForbiddenDetail -/
+def Agg.detailText (a : Agg) : Str :=
+  Str.join b!", " ((a.reasons.zip a.details).map (fun rd => if rd.2.isEmpty then rd.1 else rd.1 ++ b!" (" ++ rd.2 ++ b!")"))
+
 end PSA
